@@ -107,6 +107,19 @@ def hend_L{L}(mask: int) -> bool:
 def replay_hend_L{L}(mask):
     return replay_doc(canonical_doc(mask, [], "=" * {L} + "h" + "=" * {L}))
 ''')
+    for L in range(1, 7):
+        out.append(f'''
+def hstray_L{L}(mask: int, in_template: bool) -> bool:
+    """
+    pre: 0 <= mask < 64
+    post: _
+    """
+    return stray_heading_end_step(mask, {L}, in_template)
+
+
+def replay_hstray_L{L}(mask, in_template):
+    return replay_stray_heading_end(mask, {L}, in_template)
+''')
     return "\n".join(out)
 
 
@@ -195,6 +208,7 @@ def run(rep: C.Report) -> None:
         H,
         {
             "^head_": dict(name="Ob1 heading step: lower-level sections stay open, everything else closes, new section hangs under the nearest lower level", functions=["parser.py:subtitle_start_fn", "parser.py:close_begline_lists", "parser.py:_parser_pop"], bounds=f"all 64 open-level masks x levels 1..6 x list chains with deepest marker <= {2 if quick else 4} symbolic chars"),
+            "^hstray_": dict(name="Ob8 a heading-end token with no heading start on its line is text (no section closes, nothing moves into a heading argument)", functions=["parser.py:subtitle_end_fn"], bounds="all 64 masks x levels 1..6 x {directly in the section, inside a template argument}"),
             "^hend_": dict(name="Ob2 heading end on the same line moves the text into the heading argument", functions=["parser.py:subtitle_end_fn"], bounds="all 64 masks x levels 1..6"),
             "^hline_": dict(name="Ob3 rule closes sections deeper than level 2 and lands in the remaining top", functions=["parser.py:hline_fn"], bounds="all 64 masks x list chains"),
             "^list_": dict(name="Ob4 list step: equal marker continues the list, proper-prefix item nests, anything else starts a new list", functions=["parser.py:list_fn", "parser.py:pop_until_nth_list"], bounds=f"chains with deepest marker <= {2 if quick else 4}, token <= {3 if quick else 5} symbolic chars over {{*,#}}, with/without an open section"),
